@@ -229,6 +229,8 @@ def key_templates(ctx, f, key_expr: ast.AST, depth: int = 0) -> List[Tuple[str, 
     """Templates (text with ⟨hole⟩s, defining node) a dict-key expression may evaluate to.  Names are followed through
     their reaching definitions (plain assignments only)."""
     t = fstring_template(key_expr)
+    if t is None and isinstance(key_expr, ast.BinOp) and isinstance(key_expr.op, ast.Add):
+        t = _concat_template(key_expr)
     if t is not None:
         return [(t, key_expr)]
     if isinstance(key_expr, ast.Name) and depth < 4:
@@ -246,6 +248,37 @@ def key_templates(ctx, f, key_expr: ast.AST, depth: int = 0) -> List[Tuple[str, 
     if isinstance(key_expr, ast.IfExp):
         return key_templates(ctx, f, key_expr.body, depth + 1) + key_templates(ctx, f, key_expr.orelse, depth + 1)
     return [("⟨" + ast.unparse(key_expr) + "⟩", key_expr)]
+
+
+def _concat_template(e: ast.AST) -> Optional[str]:
+    """`var + '_buffer' + suffix` -> '⟨var⟩_buffer⟨suffix⟩' (string concatenation with at least one literal part)."""
+    parts: List[str] = []
+    literal = [False]
+
+    def rec(x):
+        if isinstance(x, ast.BinOp) and isinstance(x.op, ast.Add):
+            rec(x.left)
+            rec(x.right)
+            return
+        t = fstring_template(x)
+        if t is not None:
+            literal[0] = True
+            parts.append(t)
+        else:
+            parts.append("⟨" + ast.unparse(x) + "⟩")
+    rec(e)
+    return "".join(parts) if literal[0] else None
+
+
+def template_holes(node: ast.AST) -> List[ast.AST]:
+    """Hole expressions of a constant / f-string / string concatenation."""
+    if isinstance(node, ast.Constant):
+        return []
+    if isinstance(node, ast.JoinedStr):
+        return [v.value for v in node.values if isinstance(v, ast.FormattedValue)]
+    if isinstance(node, ast.BinOp) and isinstance(node.op, ast.Add):
+        return template_holes(node.left) + template_holes(node.right)
+    return [node]
 
 
 def literal_pieces(template: str) -> List[str]:
